@@ -29,6 +29,7 @@ RULE += (' Also: a failing callable: the call sync(f)(x) itself must return an a
 RULE += (' Also: sync() of two related callables (wraps copy, object copy, bound methods, subclass) in both orders.')
 RULE += (' Also: what an awaitable resolves to may itself be awaitable payload (delivered, not awaited again).')
 RULE += (' Also: a StopAsyncIteration raised by an awaitable given to await_each surfaces as RuntimeError (caused by it), the stream does not end quietly.')
+RULE += (' Also: sync() of classes (plain, and with instances that have an async def __call__).')
 ASSUMPTIONS = ["direct specification oracle (no stdlib twin exists for these helpers)"]
 EXHAUSTIVE = {"quick": True, "thorough": True}
 MAX_SHARDS = 8
@@ -78,7 +79,7 @@ def cases(tier, seed, shard, nshards):
                 yield {"kind": "sync_related", "pattern": pattern, "order": order}
     for flav in ("def", "async_def", "partial", "callobj", "lambda_awaitable", "def_raises", "async_raises",
                  "callobj_plain", "notcallable", "awaitable_value", "lambda_awaitable_raises", "callobj_raises",
-                 "awaitable_value_raises", "partial_raises"):
+                 "awaitable_value_raises", "partial_raises", "class_async_call_instances", "class_plain"):
         for susp in (0, 1):
             for exc in (excs if flav.endswith("raises") else ["KeyError"]):
                 idx += 1
@@ -618,7 +619,48 @@ def run_apply(case, stats):
     return {"violations": viols, "nontrivial": n > 0, "sig": tuple(sorted(case.items(), key=str))}
 
 
+def run_sync_class(case, stats):
+    """sync() of a CLASS (a factory like any other callable): the call constructs an instance - also when the instances
+    themselves happen to be callable with an ``async def __call__`` - and the wrapper hands it out through an await."""
+    CTX.reset()
+    made = []
+
+    class Handler:
+        def __init__(self, a, b=2):
+            made.append((a, b))
+            self.a, self.b = a, b
+
+        async def __call__(self, x):
+            return (self.a, self.b, x)
+
+    class Plain:
+        def __init__(self, a, b=2):
+            made.append((a, b))
+
+    cls = Handler if case["flav"] == "class_async_call_instances" else Plain
+    viols = []
+    wrapped = A.sync(cls)
+    try:
+        aw = wrapped(7, b=3)
+        import inspect
+        if not inspect.isawaitable(aw):
+            viols.append({"key": "sync/returns-plain-value", "msg": f"sync({cls.__name__})(...) returned a {type(aw).__name__}, not an awaitable"})
+            res = aw
+        else:
+            res = drive(_await(aw))
+        if not isinstance(res, cls) or made != [(7, 3)]:
+            viols.append({"key": "sync/result", "msg": f"sync({cls.__name__})(7, b=3) gave {res!r}; constructed: {made}"})
+    except BaseException as exc:  # noqa: BLE001
+        viols.append({"key": "sync/result", "msg": f"sync({cls.__name__})(7, b=3) raised {type(exc).__name__}: {exc}"})
+    if CTX.foreign:
+        viols.append({"key": "sync/foreign-suspension", "msg": CTX.foreign[0]})
+    stats["sync_runs"] += 1
+    return {"violations": viols, "nontrivial": True, "sig": (case["flav"],)}
+
+
 def run_sync(case, stats):
+    if case["flav"].startswith("class_"):
+        return run_sync_class(case, stats)
     CTX.reset()
     flav, susp = case["flav"], case["susp"]
     # (where the callable hands out an awaitable, what THAT resolves to may again be awaitable: it is the result)
